@@ -135,6 +135,7 @@ type HistCfg struct {
 
 // History is a complete generated multi-file binlog.
 type History struct {
+	retired        []*TableDef // tables whose id was taken over by another table (the mapper still knows them)
 	wildTS         bool
 	lastXid        uint64
 	Cfg            HistCfg
@@ -1371,6 +1372,28 @@ func genHistory(s *Stream, o0 *GenOpts) *History {
 				}
 				h.Tables = append(h.Tables, nt)
 			}
+		}
+		if o.TableIDReuse && s.Chance(1, 8) && len(h.Tables) >= 2 && len(h.Tables) < 12 && h.exactTable == nil {
+			// a master restarted in the middle of the history counts its table ids from
+			// the start again: an id that stood for one table now announces another one
+			// (other name, other columns). From here on the id belongs to the new table.
+			old := h.Tables[s.N(len(h.Tables))]
+			nt := genTable(s, 100+len(h.Tables)+20*len(h.retired), o) // (a name no other table of the history has)
+			nt.ID = old.ID
+			if s.Chance(1, 2) {
+				// same shape, other name: nothing but the name tells the two apart
+				nt.Cols = append([]ColDef(nil), old.Cols...)
+				for ci := range nt.Cols {
+					nt.Cols[ci].Name = fmt.Sprintf("n%d_%s", ci, nt.Cols[ci].Name)
+					nt.Cols[ci].Unsigned = !nt.Cols[ci].Unsigned
+				}
+			}
+			for i, t := range h.Tables {
+				if t == old {
+					h.Tables[i] = nt // later statements use the new table; the old one is gone
+				}
+			}
+			h.retired = append(h.retired, old)
 		}
 		if o.TableIDReuse && s.Chance(1, 4) {
 			// the table keeps its id, name, column count, column names and
